@@ -245,6 +245,48 @@ def gen_c04(rng, cid):
     lines = [feed_line(1, x) for x in frames]
     return Case(cid, lines, dict(frames=frames))
 
+def polyglot_cases(rng, tag, per_case=12):
+    """capture-module frames that are ALSO plausible under the TECMP layout: every CMP header field that overlays a TECMP header field
+    takes one of TECMP's legal values (message type byte = TECMP version 2/3, stream id = a TECMP message type, sequence counter = a
+    TECMP data type, upper timestamp bytes = TECMP's reserved word) and the first payload word is the TECMP entry length that would tile
+    the frame (or a neighbour). They start with a non-zero version byte, so they are capture-module frames and nothing else."""
+    frames = []
+    for mt in (3, 2, 1, 255):
+        for stream in (0, 1, 2, 3, 4, 0x0A):
+            for seq in (0, 1, 2, 3, 4, 8, 0x10, 0x20, 0x80):
+                if not rng.chance(1, 2) and not (mt == 3 and stream == 3):
+                    continue
+                h = dict(ver=rng.choice([1, 1, 2, 3]), dev=rng.choice([0, 1, 0x100, rng.below(65536)]), mt=mt, stream=stream, seq=seq)
+                ts = rng.next() & rng.choice([0xFFFFFFFFFFFF, 0xFFFFFFFFFFFF, 0xFFFFFFFF, 2 ** 64 - 1])
+                variant = rng.below(4)
+                if variant == 0 or mt not in (3,):
+                    n = rng.choice([4, 8, 12, 16, 20, 40])
+                    for delta in rng.choice([[0], [0], [0, 1], [0, -1]]):
+                        w = (n - 4 + delta) & 0xFFFF
+                        pay = be(w, 2) + rng.bytes(n - 2)
+                        frames.append(frame_of(h, [msg(ts, rng.next() & 0xFFFFFFFF, rng.below(256) & 0xB3, rng.choice([0x7F, 0x20, 3, 4]), pay)]))
+                elif variant == 1:
+                    # a valid capture-module status payload whose uptime starts with the tiling length
+                    body = cm_payload(uptime=0, strings=[rng.bytes(rng.below(4)).replace(b'\0', b'x') for _ in range(4)])
+                    pay = be((len(body) - 4) & 0xFFFF, 2) + rng.bytes(6) + body[8:]
+                    frames.append(frame_of(h, [msg(ts, 0, 0, 1, pay)]))
+                elif variant == 2:
+                    body = if_payload(ifid=0, c=[rng.next() & 0xFFFFFFFF for _ in range(6)], status=rng.below(3))
+                    pay = be((len(body) - 4) & 0xFFFF, 2) + body[2:]
+                    frames.append(frame_of(h, [msg(ts, 0, 0, 2, pay)]))
+                else:
+                    # two messages; the first word spans both, zero padding behind
+                    p2 = rng.bytes(rng.choice([2, 6, 10]))
+                    n = rng.choice([4, 8, 16])
+                    total = n + 16 + len(p2)
+                    pay = be((total - 4) & 0xFFFF, 2) + rng.bytes(n - 2)
+                    frames.append(frame_of(h, [msg(ts, 1, 0, 0x7F, pay), msg(rng.next(), 2, 0, 0x7F, p2)], pad=rng.choice([0, 0, 4, 12])))
+    cases = []
+    for i in range(0, len(frames), per_case):
+        fr = frames[i:i + per_case]
+        cases.append(Case('%s%d' % (tag, i // per_case), [feed_line(1, x) for x in fr], dict(frames=fr)))
+    return cases
+
 def truncation_cases(rng, cid):
     """every truncation of one frame"""
     h = rand_hdr(rng)
@@ -496,6 +538,30 @@ def slow_and_busy_cases(rng, tag, thorough=False):
         other = [cmp_frame(1, e2[0], 1, e2[1], j % 65536, [msg(j, 7, 0, 0x7E, bytes([j & 255]))]) for j in range(nf)]
         frames = [fr[0], fr[1]] + other + [fr[2]]
         cases.append(Case('%sbusy%d' % (tag, i), [feed_line(1, f) for f in frames], dict(frames=frames, eps=[e, e2])))
+    return cases
+
+def wrap_count_cases(rng, tag, thorough=False):
+    """a 16-bit quantity that counts EVENTS (entries erased, messages completed, reassemblies aborted) wraps: between the abort of
+    endpoint E's reassembly and a stray continuation segment of E, exactly N other reassemblies are opened and released again, N around
+    2^16 (and 2^15). One frame per event: `[unsegmented message][first segment]` of a filler endpoint releases the previous filler
+    reassembly and opens the next one (kind 'abort'); `[first]` then `[last]` completes one (kind 'done', two frames per event)."""
+    cases = []
+    plan = [(65535, 'abort'), (65536, 'abort'), (65534, 'abort'), (32767, 'done')] if not thorough else \
+           [(n, k) for k in ('abort', 'done') for n in (32766, 32767, 32768, 65533, 65534, 65535, 65536, 65537, 131071)]
+    for i, (n, kind) in enumerate(plan):
+        r = rng.fork('%swrap%d' % (tag, i))
+        e = (r.below(65536), r.below(256))
+        f = (e[0] ^ 0x55, e[1] ^ 1)
+        fr = chain_frames(r, e, r.below(65536), 4, trail=False)
+        frames = [fr[0], fr[1], cmp_frame(1, e[0], 1, e[1], 7, [msg(1, 2, 0, 0x7E, b'x')])]
+        for j in range(n):
+            if kind == 'abort':
+                frames.append(cmp_frame(1, f[0], 1, f[1], j % 65536, [msg(j, 7, 0, 0x7E, b'u'), msg(j, 7, 4, 0x7E, bytes([j & 255, 1]))]))
+            else:
+                frames.append(cmp_frame(1, f[0], 1, f[1], (2 * j) % 65536, [msg(j, 7, 4, 0x7E, bytes([j & 255]))]))
+                frames.append(cmp_frame(1, f[0], 1, f[1], (2 * j + 1) % 65536, [msg(j, 7, 12, 0x7E, bytes([1]))]))
+        frames += [fr[2], fr[3]]
+        cases.append(Case('%swrap%d' % (tag, i), [feed_line(1, x) for x in frames], dict(frames=frames, eps=[e, f])))
     return cases
 
 def alias_partner(r, e):
